@@ -181,10 +181,16 @@ pub fn c05(cx: &mut Ctx) {
         for reqv in ["HTTP/1.1", "HTTP/1.0"] {
             for creq in [false, true] {
                 let mut r = cx.case("polled");
-                let h = Head { version: 1, status: *r.pick(&[403u16, 417, 200, 413]), reason: Some(b"No".to_vec()),
-                               fields: vec![Field { name: b"Connection".to_vec(), pre: b" ".to_vec(), value: b"close".to_vec(), post: vec![] },
-                                            Field { name: b"Content-Length".to_vec(), pre: b" ".to_vec(), value: b"0".to_vec(), post: vec![] },
-                                            Field { name: b"X-K".to_vec(), pre: b" ".to_vec(), value: k.to_string().into_bytes(), post: vec![] }] };
+                let mk = |n: &str, v: &str| Field { name: n.as_bytes().to_vec(), pre: b" ".to_vec(), value: v.as_bytes().to_vec(), post: vec![] };
+                let mut fields = vec![mk("Content-Length", "0"), mk("X-K", &k.to_string())];
+                // what the refusal says about the connection: close / keep-alive / two fields / nothing
+                match (k + if creq { 1 } else { 0 } + if reqv == "HTTP/1.0" { 2 } else { 0 }) % 4 {
+                    0 => fields.insert(0, mk("Connection", "close")),
+                    1 => fields.insert(1, mk("Connection", "keep-alive")),
+                    2 => { fields.insert(0, mk("Connection", "keep-alive")); fields.push(mk("connection", "upgrade")); }
+                    _ => {}
+                }
+                let h = Head { version: 1, status: *r.pick(&[403u16, 417, 200, 413]), reason: Some(b"No".to_vec()), fields };
                 let enc = h.enc();
                 cx.meta(&h.meta());
                 let mut hs: Vec<(&str, &[u8])> = vec![("expect", b"100-continue"), ("content-length", b"3")];
@@ -944,6 +950,37 @@ pub fn c20(cx: &mut Ctx) {
         if i % 2 == 0 { full.extend_from_slice(b"body bytes\r\n\r\n"); }
         cx.op(&format!("parse-resp {} {}", lim, hx(&full)));
         cx.op(&format!("parse-partial {} {}", lim, hx(&full)));
+    }
+    // heads made of the fields the rest of the crate looks at (framing, connection, location, expect), in both
+    // versions and several spellings: the parsers report them like any other field
+    {
+        let names = ["Transfer-Encoding", "transfer-encoding", "Content-Length", "CONTENT-LENGTH", "Connection", "connection", "Location", "Expect", "Host", "Trailer", "TE", "Upgrade"];
+        let values = ["chunked", "gzip, chunked", "0", "5", "close", "keep-alive", "/n", "100-continue", "a.test", ""];
+        for i in 0..(if cx.thorough { 240 } else { 60 }) {
+            let mut r = cx.case("known");
+            let ver = (i % 2) as u8;
+            let nf = 1 + i % 4;
+            let fields: Vec<Field> = (0..nf).map(|j| Field { name: names[(i + 5 * j) % names.len()].as_bytes().to_vec(), pre: b" ".to_vec(), value: values[(i / 2 + 3 * j) % values.len()].as_bytes().to_vec(), post: vec![] }).collect();
+            let h = Head { version: ver, status: *r.pick(&[200u16, 204, 302, 101, 417]), reason: Some(b"R".to_vec()), fields };
+            let enc = h.enc();
+            cx.meta(&h.meta());
+            cx.meta("limit 128");
+            for p in prefix_lengths(&mut r, enc.len()) {
+                cx.op(&format!("parse-resp 128 {}", hx(&enc[..p])));
+                cx.op(&format!("parse-partial 128 {}", hx(&enc[..p])));
+            }
+            cx.op(&format!("parse-resp 128 {}", hx(&enc)));
+            cx.op(&format!("parse-partial 128 {}", hx(&enc)));
+            // the same fields in a request head
+            let mut renc = format!("{} /p HTTP/1.{}\r\n", if i % 3 == 0 { "POST" } else { "GET" }, ver).into_bytes();
+            renc.extend_from_slice(&enc_fields(&h.fields));
+            renc.extend_from_slice(b"\r\n");
+            cx.case("knownreq");
+            cx.meta(&format!("reqhead {} {} {} {}{}", hx(if i % 3 == 0 { b"POST" } else { b"GET" }), hx(b"/p"), ver, h.fields.len(), meta_fields(&h.fields)));
+            cx.meta("limit 128");
+            cx.op(&format!("parse-req 128 {}", hx(&renc[..renc.len() - 2])));
+            cx.op(&format!("parse-req 128 {}", hx(&renc)));
+        }
     }
     // requests
     for i in 0..n {
